@@ -1,8 +1,219 @@
-import OmplModel.Model.Pdf
-/-! C12 property theorems (filled in below). -/
+import OmplModel.Proofs.PdfSample
+/-!
+C12 — weighted sampling follows the current weights after any edits (`ompl::PDF`).
+
+`[AF]` = arithmetic-free: holds for every weight type with any `+ - < *`, hence for the `Float`
+instance the driver runs.  `[EX]` = exact arithmetic (ordered commutative group / ring); what these
+leave unverified is exactly IEEE rounding.  The model's `sample` is the code *with* the F2 bound
+guard; `sampleOld` is the descent before the fix.
+-/
 namespace OmplModel.Props.C12
 open OmplModel.Pdf
 
-theorem clear_size {α} (s : Pdf α) : s.clear.size = 0 := rfl
+/-- core `Int` as a weight type (for kernel-evaluated examples and the F2 witness) -/
+@[reducible] def intScale : WScale Int where
+  add := (· + ·)
+  sub := (· - ·)
+  lt := fun a b => decide (a < b)
+  zero := 0
+  mul := (· * ·)
+  one := 1
 
+/-! ## arithmetic-free part -/
+section AF
+variable {α : Type}
+
+/-- [AF] tree shape (`tree_` empty iff no elements; row 0 has `n` cells, row `i+1` has `⌈|row i|/2⌉`,
+the last row one) holds after every finite sequence of add / update / remove / clear / sample. -/
+theorem shape_preserved [WOps α] (ops : List (Op α)) : ShapeInv ((Pdf.empty : Pdf α).run ops) :=
+  shapeInv_run ops _ shapeInv_empty
+
+example : ShapeInv (@Pdf.run Int intScale.toWOps Pdf.empty [.add 1, .add 2, .add 3, .remove 0]) :=
+  @shape_preserved Int intScale.toWOps _
+
+/-- [AF] every element's `index_` equals its position, every live handle's `index_` points at itself,
+for every finite operation sequence (so element handles always denote exactly the surviving elements). -/
+theorem idx_sync_preserved [WOps α] (ops : List (Op α)) : IdxSync ((Pdf.empty : Pdf α).run ops) :=
+  idxSync_run ops _ idxSync_empty
+
+example : IdxSync (@Pdf.run Int intScale.toWOps Pdf.empty [.add 1, .add 2, .add 3, .remove 0, .add 5]) :=
+  @idx_sync_preserved Int intScale.toWOps _
+
+/-- [AF] positions hold pairwise distinct handles, and a handle is stored iff it is live. -/
+theorem handles_exact [WOps α] (ops : List (Op α)) :
+    let s := (Pdf.empty : Pdf α).run ops
+    (∀ i j (hi : i < s.data.size) (hj : j < s.data.size), s.data[i] = s.data[j] → i = j) ∧
+    (∀ h, (s.idx h).isSome ↔ h ∈ s.data) := by
+  intro s
+  have hs : IdxSync s := idx_sync_preserved ops
+  refine ⟨fun i j hi hj e => hs.inj hi hj e, fun h => ⟨?_, ?_⟩⟩
+  · intro hl
+    obtain ⟨i, hi⟩ := Option.isSome_iff_exists.mp hl
+    have := hs.bwd h i hi
+    exact Array.mem_of_getElem? this
+  · intro hm
+    obtain ⟨i, hi, e⟩ := Array.getElem_of_mem hm
+    have := hs.fwd i hi
+    rw [e] at this
+    simp [this]
+
+/-- [AF] `sample` (with the F2 guard) never reads outside a tree row or outside `data_`: from the
+shape alone, for every weight type — in particular under floating-point rounding. -/
+theorem sample_inbounds_of_shape [WScale α] (s : Pdf α) (r : α) (hs : ShapeInv s) : s.sample r ≠ .oob := by
+  unfold Pdf.sample
+  split
+  · simp
+  · rename_i hn
+    split
+    · simp
+    · have hn' : 0 < s.data.size := by omega
+      have ht := total_isSome s.tree _ hn' hs
+      obtain ⟨tot, htot⟩ := Option.isSome_iff_exists.mp ht
+      rw [htot]
+      simp only
+      have hlt := walk_lt s.tree _ (WScale.mul r tot) hn' hs
+      rw [Array.getElem?_eq_getElem hlt]
+      simp
+
+theorem sample_inbounds [WScale α] (ops : List (Op α)) (r : α) :
+    ((Pdf.empty : Pdf α).run ops).sample r ≠ .oob :=
+  sample_inbounds_of_shape _ r (shape_preserved ops)
+
+example : @Pdf.sample Int intScale (@Pdf.run Int intScale.toWOps Pdf.empty [.add 1, .add 1, .add 1, .remove 1]) 1
+    = SampleRes.ok 2 := by decide
+
+/-- the result of `getWeight` is the stored leaf of that element -/
+theorem getWeight_reads_leaf (s : Pdf α) (h : Nat) :
+    s.getWeight h = (s.idx h).bind (fun i => (row0 s)[i]?) := getWeight_eq s h
+
+/-- [AF] **refinement.**  After any finite operation sequence the structure's per-handle weights
+(`getWeight`), handle counter and stored handles are exactly those of the abstract handle → weight
+map run on the same sequence; with `handles_exact` (no duplicates) the size is the number of live
+handles. -/
+theorem refines_assoc [WOps α] (ops : List (Op α)) :
+    let s := (Pdf.empty : Pdf α).run ops
+    let a := ({} : Abs α).run ops
+    (∀ h, s.getWeight h = a.m h) ∧ s.next = a.next ∧ (∀ h, h ∈ s.data ↔ (a.m h).isSome) := by
+  intro s a
+  have hr : Refines s a := refines_run ops _ _ shapeInv_empty idxSync_empty
+    ⟨fun h => by simp [Pdf.getWeight, Pdf.empty], rfl⟩
+  have hsh : ShapeInv s := shape_preserved ops
+  have hix : IdxSync s := idx_sync_preserved ops
+  refine ⟨hr.1, hr.2, fun h => ?_⟩
+  rw [← hr.1 h, getWeight_eq, ← (handles_exact ops).2 h]
+  cases hi : s.idx h with
+  | none => simp
+  | some i =>
+    have := hix.sync.lt hi
+    have hsz := row0_size s hsh
+    simp [hsz, this]
+
+example : (@Pdf.run Int intScale.toWOps Pdf.empty [.add 1, .add 2, .remove 0, .update 1 7]).getWeight 1 = some 7 := by
+  decide
+
+end AF
+
+/-! ## F2: the descent before the fix is index-safe only while parents equal their children's sum -/
+
+/-- a shape-correct, index-synchronised 3-element structure whose single-child parent (row 1, cell 1)
+is 2 while its only child is 1 — the kind of state rounding produces (F2). -/
+def driftState : Pdf Int :=
+  { data := #[0, 1, 2], idx := fun h => if h < 3 then some h else none,
+    tree := [#[1, 1, 1], #[2, 2], #[4]], next := 3 }
+
+theorem driftState_shape : ShapeInv driftState := by
+  simp [ShapeInv, driftState, sizes, ShapeSizes]
+
+/-- F2 witness: the unfixed descent reads out of range on `sample(1)`; the kernel evaluates the model. -/
+theorem sampleOld_oob_of_drift : @Pdf.sampleOld Int intScale driftState 1 = SampleRes.oob := by decide
+
+/-- … while the fixed descent stays on the last element. -/
+theorem sample_fixed_on_drift : @Pdf.sample Int intScale driftState 1 = SampleRes.ok 2 := by decide
+
+/-! ## exact-arithmetic part -/
+section EX
+open Exact
+
+section group
+variable {α : Type} [AddCommGroup α] [LinearOrder α]
+
+/-- [EX] every parent cell is the sum of its one or two children, after every finite operation sequence. -/
+theorem sum_preserved (ops : List (Op α)) : SumInv ((Pdf.empty : Pdf α).run ops) :=
+  (treeInv_run ops _ ⟨shapeInv_empty, sumInv_empty⟩).2
+
+example : SumInv ((Pdf.empty : Pdf ℤ).run [.add 1, .add 2, .add 3, .update 1 5, .remove 0]) := sum_preserved _
+
+end group
+
+section ring
+variable {α : Type} [CommRing α] [LinearOrder α] [IsStrictOrderedRing α]
+
+theorem reachable_inv : ∀ (ops : List (Op α)) (s : Pdf α), (∀ op ∈ ops, OpOk op) →
+    ShapeInv s → SumInv s → LeavesNonneg s →
+    ShapeInv (s.run ops) ∧ SumInv (s.run ops) ∧ LeavesNonneg (s.run ops)
+  | [], s, _, h1, h2, h3 => ⟨h1, h2, h3⟩
+  | op :: ops, s, hok, h1, h2, h3 => by
+    have t := treeInv_step s op ⟨h1, h2⟩
+    exact reachable_inv ops (s.step op) (fun o ho => hok o (List.mem_cons_of_mem _ ho)) t.1 t.2
+      (leavesNonneg_step s op h1 h3 (hok op List.mem_cons_self))
+
+/-- [EX] **selection rule.**  After any finite sequence of operations with non-negative weights, for
+`r ∈ [0,1]` on a non-empty structure `sample r` returns the element at the *least* position `i` whose
+prefix sum reaches `r * total` (`total` = sum of all current weights, `pre w k` = sum of the first
+`k` weights in element order): `r*total ≤ pre (i+1)` and every `k` with `r*total ≤ pre (k+1)` is `≥ i`. -/
+theorem sample_spec (ops : List (Op α)) (hok : ∀ op ∈ ops, OpOk op) (r : α) (h0 : 0 ≤ r) (h1 : r ≤ 1) :
+    let s := (Pdf.empty : Pdf α).run ops
+    0 < s.data.size →
+    ∃ i, ∃ hi : i < s.data.size, s.sample r = .ok s.data[i] ∧
+      r * pre (row0 s) s.data.size ≤ pre (row0 s) (i + 1) ∧
+      ∀ k, r * pre (row0 s) s.data.size ≤ pre (row0 s) (k + 1) → i ≤ k := by
+  intro s hn
+  obtain ⟨hsh, hsum, hnn⟩ := reachable_inv ops (Pdf.empty : Pdf α) hok shapeInv_empty sumInv_empty leavesNonneg_empty
+  obtain ⟨i, hi, hres, hle, hlt⟩ := sample_interval s r hsh hsum hn h0 h1 hnn
+  refine ⟨i, hi, hres, hle, ?_⟩
+  intro k hk
+  by_contra hki
+  have hki : k + 1 ≤ i := by omega
+  have := pre_mono (row0 s) hnn (k + 1) i hki
+  have := hlt (by omega)
+  linarith
+
+example := sample_spec (α := ℚ) [.add 1, .add 0, .add 3] (by simp [OpOk]) (1 / 4) (by norm_num) (by norm_num)
+
+/-- [EX] **an element of zero weight is never drawn** for `0 < r ≤ 1` when the total weight is
+positive: the returned handle's current weight is strictly positive. -/
+theorem zero_weight_never_drawn (ops : List (Op α)) (hok : ∀ op ∈ ops, OpOk op) (r : α) (h0 : 0 < r)
+    (h1 : r ≤ 1) :
+    let s := (Pdf.empty : Pdf α).run ops
+    0 < pre (row0 s) s.data.size →
+    ∃ h w, s.sample r = .ok h ∧ s.getWeight h = some w ∧ 0 < w := by
+  intro s htot
+  obtain ⟨hsh, hsum, hnn⟩ := reachable_inv ops (Pdf.empty : Pdf α) hok shapeInv_empty sumInv_empty leavesNonneg_empty
+  have hix : IdxSync s := idx_sync_preserved ops
+  have hn : 0 < s.data.size := by
+    rcases Nat.eq_zero_or_pos s.data.size with h | h
+    · rw [h] at htot; simp [pre] at htot
+    · exact h
+  obtain ⟨i, hi, hres, hle, hlt⟩ := sample_interval s r hsh hsum hn (le_of_lt h0) h1 hnn
+  have hsz := row0_size s hsh
+  have hi' : i < (row0 s).size := by omega
+  refine ⟨s.data[i], (row0 s)[i], hres, ?_, ?_⟩
+  · rw [getWeight_eq, hix.fwd i hi]
+    simp [hi']
+  · have hX : 0 < r * pre (row0 s) s.data.size := mul_pos h0 htot
+    have hc : cell (row0 s) i = (row0 s)[i] := cell_lt _ _ hi'
+    rw [← hc]
+    simp only [pre] at hle
+    rcases Nat.eq_zero_or_pos i with hz | hp
+    · subst hz
+      simp only [pre, zero_add] at hle
+      linarith
+    · have := hlt hp
+      linarith
+
+example := zero_weight_never_drawn (α := ℚ) [.add 1, .add 0, .add 3, .update 0 2, .remove 1] (by simp [OpOk]) (1 / 4)
+  (by norm_num) (by norm_num)
+
+end ring
+end EX
 end OmplModel.Props.C12
